@@ -94,7 +94,7 @@ def make_options(adaptive, screening):
     o.output_file = "SENTINEL_output_file"
     o.monitor = False
     assume(o.adaptive_time_step_multiplier > 0, o.adaptive_time_step_multiplier < 1, o.dt_init > 0, o.dt_init <= o.dt_max,
-           o.max_solve_retries >= 0, o.adaptive_window >= 1, o.screening_tolerance > 0, o.max_iterations_per_step >= 0)
+           o.max_solve_retries >= 0, o.adaptive_window >= 1, o.screening_tolerance > 0, o.max_iterations_per_step >= 0, o.save_every >= 1)
     return o
 
 
@@ -323,6 +323,7 @@ def run_update(mutate=None, screening=False, dynamic=False, prefixes=("C",)):
             check("C02.call_pre.base_state_is_state_at_step_n", z3.BoolVal(psi is psi_in and mu is mu_in and eps is s.epsilon))
             check("C12.step.euler_called_with_step", sym.eq(step_, step))
             check("C12.step.dt_passed_positive", SR.lift(dt).e > 0)
+            check("C11.update_ignores_observers.step_inputs", z3.BoolVal(not (sym._consts(SR.lift(dt).e) & {"save_every", "progress_interval"})))
             dt_out = SR(FreshReal("dt_used"))
             c.pc.append(z3.And(dt_out.e > 0, dt_out.e <= SR.lift(dt).e, z3.Implies(z3.Not(adaptive.e), dt_out.e == SR.lift(dt).e)))
             res = (SymArray.fresh("psi_new", (N,), "c"), SymArray.fresh("abs_sq_new", (N,)), dt_out)
